@@ -18,8 +18,12 @@ package main
 // ranges set and not unset, each with exactly the rules set for it.
 
 import (
+	"archive/zip"
+	"bytes"
 	"encoding/json"
 	"fmt"
+	"io"
+	"regexp"
 	"sort"
 	"strings"
 
@@ -122,6 +126,7 @@ func (h *c18CfHist) exec(r *Run, rng *Rng, line string) bool {
 		_, _ = h.f.NewSheet("S2")
 		_, _ = h.f.NewConditionalStyle(&xl.Style{Font: &xl.Font{Color: "9A0511"}})
 		h.model, h.lines, h.dead = map[string][]c18CfItem{}, []string{line}, false
+		r.Op("cfnew", "ok")
 		return true
 	case "cfset", "cfunset", "cfedit", "cfsave", "cfswap":
 	default:
@@ -138,7 +143,7 @@ func (h *c18CfHist) exec(r *Run, rng *Rng, line string) bool {
 	switch w[0] {
 	case "cfset":
 		var rules []xl.ConditionalFormatOptions
-		if err := json.Unmarshal([]byte(unhx(w[3])), &rules); err != nil {
+		if len(w) < 5 || json.Unmarshal([]byte(unhx(w[4])), &rules) != nil {
 			return true
 		}
 		sheet, rg := w[1], unhx(w[2])
@@ -149,11 +154,13 @@ func (h *c18CfHist) exec(r *Run, rng *Rng, line string) bool {
 		}
 		if err != nil {
 			r.Stat("cfh:set-rejected")
+			r.Op("cfrejected "+strings.Join(w[1:], " "), "ERR "+h.live())
 		} else {
 			h.model[sheet] = append(h.model[sheet], c18CfItem{rg, rules})
 			for _, o := range rules {
 				r.Stat("cfh:rule:" + o.Type)
 			}
+			r.Op(line, "ok "+h.live())
 		}
 	case "cfunset":
 		sheet, rg := w[1], unhx(w[2])
@@ -171,6 +178,7 @@ func (h *c18CfHist) exec(r *Run, rng *Rng, line string) bool {
 			rest = append(rest, it)
 		}
 		h.model[sheet] = rest
+		r.Op(line, "ok "+h.live())
 		if n > 1 { // the range was set by several calls: unsetting it must remove it altogether
 			if got, _ := h.f.GetConditionalFormats(sheet); len(got[rg]) > 0 {
 				h.fail(r, "cfh:same-range-set-twice:unset-leaves-rest", fmt.Sprintf("%s!%s was set by %d calls; after UnsetConditionalFormat the getter still lists %d rules for it", sheet, rg, n, len(got[rg])))
@@ -179,8 +187,14 @@ func (h *c18CfHist) exec(r *Run, rng *Rng, line string) bool {
 		}
 	case "cfedit":
 		c18Unrelated(h.f, rng)
+		r.Op(line, h.live())
 	case "cfsave", "cfswap":
-		g, err := c18Reopen(h.f)
+		buf, err := h.f.WriteToBuffer()
+		var g *xl.File
+		if err == nil {
+			r.Op(line, c18CfSaved(buf.Bytes()))
+			g, err = xl.OpenReader(bytes.NewReader(buf.Bytes()))
+		}
 		if err != nil {
 			h.fail(r, "cfh:reopen-error", err.Error())
 			return true
@@ -199,7 +213,64 @@ func (h *c18CfHist) exec(r *Run, rng *Rng, line string) bool {
 
 func c18CfLineSet(sheet, rg string, rules []xl.ConditionalFormatOptions) string {
 	b, _ := json.Marshal(rules)
-	return "cfset " + sheet + " " + hx(rg) + " " + hx(string(b))
+	return fmt.Sprintf("cfset %s %s %d %s", sheet, hx(rg), len(rules), hx(string(b)))
+}
+
+// live: what the getter shows per sheet, as the Lean driver prints it: sorted range#rules
+func (h *c18CfHist) live() string {
+	var parts []string
+	for _, sheet := range c18CfSheets {
+		got, _ := h.f.GetConditionalFormats(sheet)
+		var items []string
+		for k, v := range got {
+			items = append(items, fmt.Sprintf("%s#%d", hx(k), len(v)))
+		}
+		sort.Strings(items)
+		t := strings.Join(items, ",")
+		if t == "" {
+			t = "-"
+		}
+		parts = append(parts, sheet+": "+t)
+	}
+	return strings.Join(parts, " | ")
+}
+
+var c18CfBlockRe = regexp.MustCompile(`(?s)<conditionalFormatting sqref="([^"]*)">(.*?)</conditionalFormatting>`)
+var c18CfPrioRe = regexp.MustCompile(`<cfRule [^>]*priority="(\d+)"`)
+
+// c18CfSaved: the conditionalFormatting blocks of the saved worksheets in document order
+// with the priorities of their rules (read from the package bytes, not through the getter)
+func c18CfSaved(pkg []byte) string {
+	zr, err := zip.NewReader(bytes.NewReader(pkg), int64(len(pkg)))
+	if err != nil {
+		return "ERR"
+	}
+	var parts []string
+	for i, sheet := range c18CfSheets {
+		var xmlText string
+		for _, zf := range zr.File {
+			if zf.Name == fmt.Sprintf("xl/worksheets/sheet%d.xml", i+1) {
+				rc, _ := zf.Open()
+				b, _ := io.ReadAll(rc)
+				rc.Close()
+				xmlText = string(b)
+			}
+		}
+		var blocks []string
+		for _, m := range c18CfBlockRe.FindAllStringSubmatch(xmlText, -1) {
+			var ps []string
+			for _, p := range c18CfPrioRe.FindAllStringSubmatch(m[2], -1) {
+				ps = append(ps, p[1])
+			}
+			blocks = append(blocks, hx(m[1])+"["+strings.Join(ps, ",")+"]")
+		}
+		t := strings.Join(blocks, ";")
+		if t == "" {
+			t = "-"
+		}
+		parts = append(parts, sheet+": "+t)
+	}
+	return strings.Join(parts, " | ")
 }
 
 // c18DataBar: a data bar with a chosen combination of the extension fields.
